@@ -168,6 +168,15 @@ def single_key_ties(ops, frames, memo=None):
     return r
 
 
+def has_const_window(sc):
+    """a windowed extend with a literal first argument, e.g. (1).sum(): transcribed and tied, but outside wf_op_b (not covered by the proof)"""
+    import re
+    if sc["op"] == "table":
+        return False
+    here = sc["op"] == "extend" and (sc.get("partition_by") or sc.get("order_by")) and any(re.match(r"^\(?-?[0-9.]+\)?\.", e) for e in sc["ops"].values())
+    return bool(here) or has_const_window(sc["src"]) or ("b" in sc and has_const_window(sc["b"]))
+
+
 def eval_real(ops, frames):
     """(frame | None, error text | None, raised inside scalar-expression evaluation?)"""
     try:
@@ -708,7 +717,7 @@ def prim_cases(rng, n):
         d = df.copy(); d[c] = v
         out.append(("set_scalar", "PSetScalar %s %s %s %s" % (cstr(c), cv(v), T(df), T(d))))
         # df[c] = values
-        k = len(df) if rng.random() < 0.8 else len(df) + 1
+        k = len(df) if (rng.random() < 0.8 or len(df) == 0) else len(df) + 1      # (a frame without rows GROWS when given a longer list: never done by the executor, not modelled)
         vals = [pipes.gen_value(rng, "float", 0.3) for _ in range(k)]
         c = rng.choice(cols + ["new"])
 
@@ -823,6 +832,69 @@ def prim_cases(rng, n):
     return out
 
 
+
+def run_multi(name, terms, checkers, per_file=25, timeout=1500):
+    """like lib.run_case_files, but evaluates several checkers on the same case files: {checker: [failing global indices]}, errors, n"""
+    import re, subprocess, time
+    cdir = os.path.join(lib.COQ, "cases")
+    os.makedirs(cdir, exist_ok=True)
+    files = []
+    for k in range(0, max(1, (len(terms) + per_file - 1) // per_file)):
+        chunk = terms[k * per_file:(k + 1) * per_file]
+        fn = os.path.join(cdir, f"{name}_{k}.v")
+        with open(fn, "w") as f:
+            f.write(PRE + "\nDefinition cases := [\n" + ";\n".join(chunk) + "\n].\n")
+            for c in checkers:
+                f.write(f"Eval vm_compute in ({c} cases).\n")
+            f.write("Eval vm_compute in List.length cases.\n")
+        files.append(fn)
+    t0 = time.time()
+    results = [None] * len(files)
+    pending, running = list(range(len(files))), {}
+    while pending or running:
+        while pending and len(running) < lib.NPROC:
+            i = pending.pop(0)
+            running[i] = subprocess.Popen(["coqc", "-Q", "theories", "DA", "-Q", "cases", "DAcases", os.path.relpath(files[i], lib.COQ)],
+                                          cwd=lib.COQ, stdout=subprocess.PIPE, stderr=subprocess.STDOUT, text=True, env=lib.ENV)
+        for i, pr in list(running.items()):
+            try:
+                out, _ = pr.communicate(timeout=0.2)
+                results[i] = (pr.returncode, out)
+                del running[i]
+            except subprocess.TimeoutExpired:
+                if time.time() - t0 > timeout:
+                    pr.kill()
+                    results[i] = (124, "TIMEOUT")
+                    del running[i]
+    failing = {c: [] for c in checkers}
+    errors, n = [], 0
+    for k, (rc, out) in enumerate(results):
+        out = "\n".join(l for l in out.splitlines() if "conda" not in l)
+        if rc != 0:
+            errors.append(f"{os.path.basename(files[k])}: rc={rc}\n{out[-2000:]}")
+            continue
+        flat = " ".join(out.split())
+        lists = re.findall(r"= (\[[^\]]*\]|nil)\s*: list nat", flat)
+        m2 = re.search(r"= (\d+)(?:%nat)?\s*: nat", flat)
+        if len(lists) != len(checkers) or not m2:
+            errors.append(f"{os.path.basename(files[k])}: unparsable output\n{out[-2000:]}")
+            continue
+        n += int(m2.group(1))
+        for c, l in zip(checkers, lists):
+            failing[c] += [k * per_file + int(i) for i in re.findall(r"\d+", l)]
+    for fn in files:
+        for ext in (".v", ".vo", ".vok", ".vos", ".glob"):
+            try:
+                os.remove(fn[:-2] + ext)
+            except OSError:
+                pass
+        try:
+            os.remove(os.path.join(os.path.dirname(fn), "." + os.path.basename(fn)[:-2] + ".aux"))
+        except OSError:
+            pass
+    return failing, errors, n
+
+
 # ------------------------------------------------------------------------------------------------ run
 
 def run(chk):
@@ -922,8 +994,12 @@ def run(chk):
             tindex.append(ci)
         except semconv.Unsupported as u:
             chk.dist("unsupported:" + str(u).split()[0])
-    failing, errors, nchk = lib.run_case_files("PEXEC_pipe", PRE, terms, "check_pcases", per_file=25, timeout=1500)
-    chk.cov["correspondence"] = {"pipeline_cases": len(terms), "checked_in_coq": nchk, "disagreements": len(failing), "errors": errors[:2]}
+    multi, errors, nchk = run_multi("PEXEC_pipe", terms, ["check_pcases", "check_wf", "check_instances", "check_unguarded"])
+    failing = multi["check_pcases"]
+    chk.cov["correspondence"] = {"pipeline_cases": len(terms), "checked_in_coq": nchk, "disagreements": len(failing), "errors": errors[:2],
+                                 "premise_wf_op_b_false": len(multi["check_wf"]),
+                                 "cases_satisfying_all_premises": nchk - len(multi["check_unguarded"]),
+                                 "theorem_instances_failing": len(multi["check_instances"])}
     if errors:
         chk.corr_break("pipeline case files failed to compile", errors[0])
     for k in failing[:8]:
@@ -931,6 +1007,16 @@ def run(chk):
         res, err, _ = eval_real(c.ops, c.frames)
         chk.corr_break("the transcription of pandas_base.py (Model/PandasExec.v pexec) and the real Pandas executor return different frames",
                        {"case": c.json(), "info": info, "observed": None if res is None else pipes.frame_to_json(res), "error": err})
+    for k in multi["check_wf"][:4]:
+        c, info = cases[tindex[k]]
+        if not has_const_window(c.script):
+            chk.corr_break("a pipeline the real builder accepted violates wf_op_b, the well-formedness premise of the theorems (Model/PandasExec.v)",
+                           {"case": c.json(), "info": info})
+        else:
+            chk.dist("wf_false_constant_window_argument")
+    for k in multi["check_instances"][:4]:
+        c, info = cases[tindex[k]]
+        chk.corr_break("an instance of PEXEC_refines_sem_checked fails inside Coq (pexec vs sem_gen fl_pandas under the premises)", {"case": c.json(), "info": info})
     # ---- primitive cases
     prims = prim_cases(rng, N_PRIM[chk.tier])
     for kind, _ in prims:
